@@ -314,7 +314,8 @@ static RunPlan gen_ioerr(uint64_t seed, int tier)
 	p.family = "ioerr";
 	p.seed = seed;
 	p.cfg = gen_config(rng, 4, 4, true);
-	p.cfg.autosave_at = 0;
+	// errors of writes that complete while an autosave drains the writers must be counted like any other
+	p.cfg.autosave_at = rng.chance(1, 4) ? (int)rng.range(1, 8) : 0;
 	for (auto& o : gen_populate(rng, p.cfg, 1, 4)) p.ops.push_back(o);
 	bool scrub = rng.chance(1, 3);
 	if (scrub || rng.chance(1, 2)) {
